@@ -297,6 +297,16 @@ def refsIn (rs : List ExtRef) : List Protobom.ExtRef × List (Int × String) :=
         else (st.1 ++ [{ url := r.locator, typ := colInt t, comment := r.comment }], st.2)
       | _ => st) ([], [])
 
+def supplierPersons (a : Option Agent) : List Person :=
+  match a with
+  | some s => if s.name = "NOASSERTION" then [] else [agentPerson s]
+  | none => []
+
+def originatorPersons (a : Option Agent) : List Person :=
+  match a with
+  | some s => if s.name = "NOASSERTION" ∨ s.name = "" then [] else [agentPerson s]
+  | none => []
+
 /-- the value `packageToNode` gives the attribute with Go field name `f` -/
 def pkgAttr (p : Package) (f : String) (k : Kind) : Val :=
   if f = "Name" then .str p.name
@@ -319,12 +329,8 @@ def pkgAttr (p : Package) (f : String) (k : Kind) : Val :=
   else if f = "ValidUntilDate" then dateVal p.validUntil
   else if f = "ReleaseDate" then dateVal p.release
   else if f = "BuildDate" then dateVal p.built
-  else if f = "Suppliers" then .persons (match p.supplier with
-      | some s => if s.name = "NOASSERTION" then [] else [agentPerson s]
-      | none => [])
-  else if f = "Originators" then .persons (match p.originator with
-      | some s => if s.name = "NOASSERTION" ∨ s.name = "" then [] else [agentPerson s]
-      | none => [])
+  else if f = "Suppliers" then .persons (supplierPersons p.supplier)
+  else if f = "Originators" then .persons (originatorPersons p.originator)
   else k.zero
 
 def packageToNode (p : Package) : Node :=
